@@ -40,6 +40,7 @@ class VFS:
         # lazy: listdir returns a generator that does its work (and fails) on the first next(), like
         # `def listdir(p): with os.scandir(p) as it: yield from it` - legal for the injectable listdir
         self.lazy = LAZY
+        self.special: dict[int, int] = {}  # inode -> S_IF* of entries that are neither regular files nor directories
         self.hook = None  # called as hook(vfs, kind, path) before each call (may mutate state: races)
 
     # -- helpers
@@ -97,7 +98,7 @@ class VFS:
     def stat(self, path):
         self._maybe_fault("stat", path)
         e = self._lookup(self._rel(path))
-        mode = (statmod.S_IFDIR | 0o755) if e.isdir else (statmod.S_IFREG | 0o644)
+        mode = (statmod.S_IFDIR | 0o755) if e.isdir else (self.special.get(e.ino, statmod.S_IFREG) | 0o644)
         return St(e.ino, e.dev, mode, e.mtime, e.size, 1, 0, 0, 0, 0)
 
     def listdir(self, path):
